@@ -305,7 +305,7 @@ fn honest_pair_case<P: G>(cfg: Cfg) -> Box<dyn Case> {
         let comp_cfg = Cfg::new(cfg.n, 1, 1, cfg.d);
         let mut cw = Wit::default_for(&comp_cfg);
         cw.blindings[0][0] = blinding(77, 0);
-        let comp = build_cached::<P>(&comp_cfg, &cw).unwrap();
+        let comp = build_cached::<P>(&comp_cfg, &cw).honest();
         let comp_proof = match lib_prove(&comp, &contexts()[2], &mut HRng::chacha(91)) {
             Ok(p) => p,
             Err(_) => return res,
